@@ -211,6 +211,25 @@ def deserialize (k : Kind) (doc : PyVal) : Except Err Manifest :=
               .ok { version := (match k with | .rpms => .str currentVersion | _ => ver),   -- only Rpms resets it
                     compose := c, payload := payload }
 
+def Kind.loadMode : Kind → LoadMode
+  | .rpms => Gen.load_mode_rpms
+  | .modules => Gen.load_mode_modules
+  | .extraFiles => Gen.load_mode_extra_files
+
+/-- `obj.deserialize(doc)` / `obj.loads(text)` on an object that may ALREADY hold content (a second load, a refresh
+after adds): `State → Doc → State × Out`.  The readers' statements are read from the source (`Gen.load_mode_*`): the
+pinned ones assign the document's table (`self.rpms = data["payload"]["rpms"]`), so what the object held before
+plays no part.  A failing load leaves the mapping as it was (the table is assigned last); what it leaves in the
+header version and the compose section is not modelled (kept as before here; the harness does not compare them after
+a refused load).  A reader of another shape has no semantics (`Err.other`). -/
+def loadS (k : Kind) (m : Manifest) (doc : PyVal) : Manifest × Out :=
+  match k.loadMode with
+  | .replace =>
+    match deserialize k doc with
+    | .ok m' => (m', .ok ())
+    | .error e => (m, .error e)
+  | .unknown => (m, .error .other)
+
 /-- what `json.load` returns for the text `json.dump(doc, sort_keys=True)` wrote: the same document with every
 dict in sorted key order (assumption on the stdlib parser, exercised against the real `loads` on every case) -/
 def reparse (doc : PyVal) : PyVal := PyVal.canon doc
